@@ -295,6 +295,7 @@ func propC07(w *World, r *Report, tier string) {
 	checkSnowDriver(c, 5)
 	checkZucDriver(c, 4)
 	checkCipherCallers(c)
+	checkDriverLength(c)
 	checkCipherPurity(c, [][2]string{{"security", "NASMacCalculate"}, {"security", "NIA1"}, {"security", "NIA2"}, {"security", "NIA3"}, {"security/snow3g", "GetKeyStream"}, {"security/zuc", "Zuc"}})
 	checkGF64(c)
 	checkNIA(c, tier)
